@@ -765,17 +765,19 @@ def plan(tier, seed):
     if tier == "quick":
         for bl in (2, 128):
             fams.append(("all-ops L<=3 plain bl%d" % bl, small, cfg("plain", bl), 10))
-            fams.append(("<=2 special ops L=4 plain bl%d" % bl, conc((4,), max_special=2), cfg("plain", bl), 5))
             fams.append(("<=1 special op L=5 plain bl%d" % bl, conc((5,), max_special=1), cfg("plain", bl), 3))
+        fams.append(("<=2 special ops L=4 plain bl2", conc((4,), max_special=2), cfg("plain", 2), 5))
+        fams.append(("<=1 special op L=4 plain bl128", conc((4,), max_special=1), cfg("plain", 128), 5))
         fams.append(("<=1 special op (oldest/newest key) L=6 plain bl2", conc((6,), max_special=1, targets="ends"), cfg("plain", 2), 1))
         fams.append(("adds only L=7 plain bl2", conc((7,), max_special=0), cfg("plain", 2), 1))
         fams.append(("all-ops L<=3 async bl2", small, cfg("async", 2), 10))
         fams.append(("all-ops L<=2 async bl128", conc((1, 2)), cfg("async", 128), 10))
-        for bl in (2, 128):
-            fams.append(("all-ops L<=3 buffered(limit=2) bl%d" % bl, small, cfg("buffered", bl, buffer_limit=2), 10))
-            fams.append(("all-ops-without-groups L<=3 serialmp(procs=2) bl%d" % bl, nogroups(small), cfg("serialmp", bl, procs=2), 10))
+        fams.append(("all-ops L<=3 buffered(limit=2) bl2", small, cfg("buffered", 2, buffer_limit=2), 10))
+        fams.append(("all-ops L<=2 buffered(limit=2) bl128", conc((1, 2)), cfg("buffered", 128, buffer_limit=2), 10))
+        fams.append(("<=1 special op L=4 buffered(limit=3) bl2", conc((4,), max_special=1), cfg("buffered", 2, buffer_limit=3), 5))
+        fams.append(("all-ops-without-groups L<=3 serialmp(procs=2) bl2", nogroups(small), cfg("serialmp", 2, procs=2), 10))
+        fams.append(("all-ops-without-groups L<=2 serialmp(procs=2) bl128", nogroups(conc((1, 2))), cfg("serialmp", 128, procs=2), 10))
         fams.append(("all-ops-without-groups L<=3 serialmp(procs=1) bl2", nogroups(small), cfg("serialmp", 2, procs=1), 10))
-        fams.append(("<=2 special ops L=4 buffered(limit=3) bl2", conc((4,), max_special=2), cfg("buffered", 2, buffer_limit=3), 5))
     else:
         big = conc((4,))
         for bl in (2, 128):
@@ -803,7 +805,7 @@ def mp_cases(tier, seed):
     per operation, and a final merging commit."""
     lists = [concretize(a, seed) for a in gen_abstract(2)]
     sel = gen_abstract(4, max_special=2)
-    step = 31 if tier == "quick" else 5
+    step = 47 if tier == "quick" else 5
     lists += [concretize(a, seed) for a in sel[(seed % step)::step]]
     cases = []
     for i, ops in enumerate(lists):
@@ -834,6 +836,10 @@ def run(ctx):
     mpc = mp_cases(ctx.tier, seed)
     for ch in chunks(mpc, 3):
         tasks.append({"mode": "mp", "cases": ch, "seed": seed})
+    # long explorations first (shorter tail); the smallest failing case of
+    # every violation class is selected afterwards, whatever the order
+    tasks.sort(key=lambda t: -max(len(o) for o in t["oplists"]) if t["mode"] == "explore" else -5)
+    ctx.extra["mp_histories_planned"] = len(mpc)
     ctx.extra["families"] = fam_info
     ctx.rule = ("operation lists over {A add fresh key, G group(parent, child), Uf update of a non-live key, "
                 "D<k> delete live key, U<k> update live key, R remove_field} enumerated without repetition; "
